@@ -168,7 +168,7 @@ func main() {
 		fail("harness-build: function %s not found in %s", *harness, *pkgPath)
 	}
 	P := &Program{prog: prog, pkgs: map[string]*ssa.Package{}, globals: map[*ssa.Global]*Object{}, offCache: map[*types.Struct][]int64{},
-		initDone: map[*ssa.Package]bool{}, initAllow: map[string]bool{}, baseHeap: &Heap{}}
+		initDone: map[*ssa.Package]bool{}, initAllow: map[string]bool{}, baseHeap: &Heap{}, repo: *repo}
 	for _, a := range defaultAllow {
 		P.initAllow[a] = true
 	}
